@@ -1784,3 +1784,89 @@ Definition good_sort (sort : list nat -> list nat) : Prop :=
 
 Lemma isort_good : good_sort isort.
 Proof. split; [exact isort_perm | exact isort_sorted]. Qed.
+
+(* ================================================================== *)
+(* L. the qsort comparator                                              *)
+(* ================================================================== *)
+(* what hazard_pointer_scan needs from hazard_pointer_compare: the SIGN of
+   cmp a b is the order of a and b as unsigned 64-bit values.  (The C function
+   is checked against Hazard.cmp64 by the differential mode K = -1 of
+   rt/h_hazard.c on boundary and random address pairs, and end to end by the
+   far-apart node layout.) *)
+Definition cmp_total_order (cmp : Z -> Z -> Z) : Prop :=
+  forall a b, (0 <= a < 2 ^ 64)%Z -> (0 <= b < 2 ^ 64)%Z -> Z.sgn (cmp a b) = cmp64 a b.
+
+Lemma cmp64_ok : cmp_total_order cmp64.
+Proof. intros a b _ _. unfold cmp64. destruct (a ?= b)%Z; reflexivity. Qed.
+
+(* it is then a total order on addresses: reflexive/antisymmetric, transitive, total *)
+Lemma cmp_order_props cmp : cmp_total_order cmp ->
+  forall a b c, (0 <= a < 2 ^ 64)%Z -> (0 <= b < 2 ^ 64)%Z -> (0 <= c < 2 ^ 64)%Z ->
+  (Z.sgn (cmp a b) = 0%Z <-> a = b) /\
+  Z.sgn (cmp a b) = (- Z.sgn (cmp b a))%Z /\
+  ((cmp a b <= 0)%Z -> (cmp b c <= 0)%Z -> (cmp a c <= 0)%Z) /\
+  ((cmp a b <= 0)%Z \/ (cmp b a <= 0)%Z).
+Proof.
+  intros H a b c Ha Hb Hc.
+  assert (S : forall x y, (0 <= x < 2 ^ 64)%Z -> (0 <= y < 2 ^ 64)%Z -> ((cmp x y <= 0)%Z <-> (x <= y)%Z)).
+  { intros x y Hx Hy. specialize (H x y Hx Hy). unfold cmp64 in H.
+    destruct (Z.compare_spec x y); destruct (cmp x y) eqn:E; cbn in H; try discriminate; lia. }
+  split; [|split; [|split]].
+  - rewrite (H a b Ha Hb). unfold cmp64. destruct (Z.compare_spec a b); split; intros; try discriminate; lia.
+  - rewrite (H a b Ha Hb), (H b a Hb Ha). unfold cmp64. rewrite (Z.compare_antisym a b).
+    destruct (a ?= b)%Z; reflexivity.
+  - rewrite !S by auto. lia.
+  - rewrite !S by auto. lia.
+Qed.
+
+(* an insertion sort driven by any such comparator on the nodes' addresses
+   (address order = node order) is a good_sort: it IS isort *)
+Section CmpSort.
+Variable cmp : Z -> Z -> Z.
+Hypothesis Hcmp : cmp_total_order cmp.
+Variable addr : nat -> Z.
+Hypothesis addr_range : forall x, (0 <= addr x < 2 ^ 64)%Z.
+Hypothesis addr_mono : forall x y, x < y -> (addr x < addr y)%Z.
+
+Definition cle (x y : nat) : bool := (cmp (addr x) (addr y) <=? 0)%Z.
+
+Fixpoint cinsert (x : nat) (l : list nat) : list nat :=
+  match l with
+  | [] => [x]
+  | y :: r => if cle x y then x :: l else y :: cinsert x r
+  end.
+Fixpoint csort (l : list nat) : list nat :=
+  match l with [] => [] | x :: r => cinsert x (csort r) end.
+
+Lemma cle_leb x y : cle x y = (x <=? y).
+Proof.
+  unfold cle. pose proof (Hcmp (addr x) (addr y) (addr_range x) (addr_range y)) as H. unfold cmp64 in H.
+  destruct (Nat.leb_spec x y) as [L|L].
+  - apply Z.leb_le. destruct (Nat.eq_dec x y) as [->|Hne].
+    + rewrite Z.compare_refl in H. destruct (cmp (addr y) (addr y)); cbn in H; try discriminate; lia.
+    + assert (A := addr_mono x y ltac:(lia)). apply Z.compare_lt_iff in A. rewrite A in H.
+      destruct (cmp (addr x) (addr y)); cbn in H; try discriminate; lia.
+  - apply Z.leb_gt. assert (A := addr_mono y x L). apply Z.compare_gt_iff in A. rewrite A in H.
+    destruct (cmp (addr x) (addr y)); cbn in H; try discriminate; lia.
+Qed.
+
+Lemma cinsert_insert x l : cinsert x l = insert x l.
+Proof. induction l as [|y r IH]; cbn [cinsert insert]; auto. rewrite cle_leb, IH. reflexivity. Qed.
+
+Lemma csort_isort l : csort l = isort l.
+Proof. induction l as [|x r IH]; cbn [csort isort]; auto. rewrite IH. apply cinsert_insert. Qed.
+
+Theorem csort_good : good_sort csort.
+Proof.
+  split; intros l; rewrite csort_isort; [apply isort_perm|apply isort_sorted].
+Qed.
+End CmpSort.
+
+(* "return one - two" on intptr_t, truncated to int: not a total order *)
+Definition trunc_cmp (a b : Z) : Z :=
+  let d := ((a - b) mod 2 ^ 32)%Z in if (d <? 2 ^ 31)%Z then d else (d - 2 ^ 32)%Z.
+
+Lemma trunc_cmp_not_ok : ~ cmp_total_order trunc_cmp.
+Proof.
+  intros H. specialize (H (2 ^ 31)%Z 0%Z ltac:(cbn; lia) ltac:(cbn; lia)). vm_compute in H. discriminate.
+Qed.
